@@ -129,7 +129,7 @@ where
     // busy[w]: 0 = idle, else (child CPU ms at the start of the current phase + 1)
     // with RUN_FLAG set while the run thread is active - one atomic, so that the
     // watchdog can never combine the clock of one phase with the budget of another
-    let builder_budget_ms: u64 = 300_000;
+    let builder_budget_ms: u64 = 120_000;
     let pids: Vec<AtomicU64> = (0..workers).map(|_| AtomicU64::new(0)).collect();
     let wall_start: Vec<AtomicU64> = (0..workers).map(|_| AtomicU64::new(0)).collect();
     let children: Vec<Mutex<Option<Arc<Mutex<Child>>>>> = (0..workers).map(|_| Mutex::new(None)).collect();
@@ -232,7 +232,7 @@ where
                             deaths.fetch_add(1, Ordering::SeqCst);
                             let (class, detail) = if was_killed {
                                 timeouts.fetch_add(1, Ordering::SeqCst);
-                                ("timeout".to_string(), if in_run_phase { format!("run exceeded the budget of {} s CPU time", cfg.run_budget.as_secs()) } else { "builder phase exceeded 300 s CPU time".to_string() })
+                                ("timeout".to_string(), if in_run_phase { format!("run exceeded the budget of {} s CPU time", cfg.run_budget.as_secs()) } else { "builder phase exceeded 120 s CPU time".to_string() })
                             } else {
                                 ("abort".to_string(), format!("worker process died: {:?}", status))
                             };
